@@ -210,9 +210,8 @@ Definition align (hist : list hentry) (v1 : list N) : option (list (N * N * bool
 
 (* ------------------------------------------------------------------ cases *)
 (* a generated image: history entries and v1 layers (diff id, ops); observed per package:
-   Locations as reported (ScanResult sorts them before PopulateLayerDetails runs, so the first one need
-   not be the file the package was read from), the file it was read from (the harness extractor
-   records it), package key, LayerDetails.Index, diff id, command, InBaseImage *)
+   Locations as reported (ScanResult keeps the file the package was read from first and sorts the rest,
+   since fix 57324273), the file it was read from (the harness extractor records it), package key, LayerDetails.Index, diff id, command, InBaseImage *)
 Record vlayer := mkVL { vl_diff : N; vl_ops : list (N * lop) }.
 Record pobs := mkP { po_locs : list N; po_src : N; po_pkg : N; po_index : nat; po_diff : N; po_cmd : N; po_inbase : bool }.
 Record tcase := mkT { t_hist : list hentry; t_v1 : list vlayer; t_obs : list pobs }.
@@ -249,7 +248,7 @@ Definition case_pkgs (c : tcase) : list pkgref := map (fun o => (po_locs o, po_p
 (* every reported package is in the final view ... *)
 Definition reported_ok (h : list clayer) (c : tcase) : bool :=
   forallb (fun o => mem (po_pkg o) (content (lview h (po_src o) (pred (length h)))) &&
-                    existsb (N.eqb (po_src o)) (po_locs o)) (t_obs c).
+                    N.eqb (primary (po_locs o)) (po_src o)) (t_obs c).
 
 (* ... and every package of the final view of every regular file is reported *)
 Definition all_locs (h : list clayer) : list N := flat_map (fun L => map fst (cl_ops L)) h.
@@ -280,10 +279,9 @@ Definition case_model_ok (c : tcase) : bool :=
 
 (* the property, evaluated on what the implementation returned: the layer it names is the origin
    computed by brute force over the views, and diff id / command are those of that layer.  Claimed on
-   the domain D: the package's first reported location is the file it was read from and is never a
-   symbolic link, and no scan context is cancelled (cases outside D are only compared with the model). *)
-Definition pkg_in_D (h : list clayer) (o : pobs) : bool :=
-  link_free h (primary (po_locs o)) && N.eqb (primary (po_locs o)) (po_src o).
+   the domain D: the package's first location (the file it was read from) is never a symbolic link,
+   and no scan context is cancelled (cases outside D are only compared with the model). *)
+Definition pkg_in_D (h : list clayer) (o : pobs) : bool := link_free h (primary (po_locs o)).
 
 Definition case_cancels (h : list clayer) : bool :=
   existsb (fun L => existsb (fun lo => match snd lo with LWrite c => mem cancel_marker c | _ => false end) (cl_ops L)) h.
